@@ -6,7 +6,7 @@ From Coq Require Import ExtrOcamlBasic.
 From Lox Require Import Rang3.RangeModel Rang3.ClassModel.
 From Lox Require Import Parse.Grammar Parse.Tables Parse.ParseRuntime Parse.Validator Parse.Actions.
 From Lox Require Import Lex.LexRuntime Lex.LexAuto Lex.NfaRef Lex.LexEquiv Lex.RegexRef.
-From Lox Require Import Gen.TableEnc Gen.Numbering Gen.FirstModel Gen.ResolveModel Gen.LALRRef.
+From Lox Require Import Gen.TableEnc Gen.Numbering Gen.FirstModel Gen.ResolveModel Gen.LALRRef Gen.PrecClimb Gen.Binding Gen.Analyze.
 
 Extraction Language OCaml.
 Extraction "loxmodel_ext.ml"
@@ -21,4 +21,7 @@ Extraction "loxmodel_ext.ml"
   build build_u encode_lex_row row_key varint
   terminals token_to_string index_of
   first_go first_go_seq first_spec nullable_spec first_seq_spec
-  resolve cell_conflict resolved_cell lalr_ref has_conflicts cell_at find_state_by_core.
+  resolve cell_conflict resolved_cell lalr_ref has_conflicts cell_at find_state_by_core
+  climb climb_out_of_fuel well_grouped uniformb
+  assign_actions wf_input shape_okb rule_generated rule_from_method cast param_value
+  analyze well_formed well_formed_weak.
